@@ -7,7 +7,7 @@ import ast
 
 from .. import AnalysisError, flow
 from ..fold import is_unknown
-from ..srcmodel import walk_local, norm, dotted, guards, parent
+from ..srcmodel import walk_local, norm, dotted, guards, parent, facts_at, literals
 from . import common, forward
 from .c16 import fixpoint_loops
 
@@ -52,6 +52,7 @@ def check(ctx):
     ctx.attempt(_order)
     ctx.attempt(_standardize)
     ctx.attempt(_fixpoint_window)
+    ctx.attempt(_index_bounds)
     ctx.attempt(_subdivide)
     ctx.attempt(_pass_back_linear)
     ctx.attempt(forward.check_all, module_suffixes=('tract.aliquot_parse', 'tract.tract', 'tract.tract_parse'))
@@ -329,6 +330,55 @@ def _fixpoint_window(ctx):
                 f"of {last[ops[1].id][3] if last[ops[1].id] else '?'}() of the same iteration: the loop ends when the last "
                 f"pass changes nothing, even if the earlier pass has just moved a half to where it can be combined",
                 key="FIXPOINT|standardize_aliquot_components|window", where=common.loc(fi, cmp_))
+
+
+def _index_bounds(ctx):
+    """An index loop `while i + c < len(x)` that reads x[i] ... x[i + k]
+    without a further guard must have c == k: with c < k the last read runs
+    off the end, with c > k the loop stops before the last pair / element has
+    been examined (a half at the end of the chain is never passed back)."""
+    from .c05 import lin
+    n = 0
+    for fi in ctx.repo.funcs.values():
+        if not fi.module.name.endswith('tract.aliquot_parse'):
+            continue
+        for w in walk_local(fi.node):
+            if not (isinstance(w, ast.While) and isinstance(w.test, ast.Compare) and len(w.test.ops) == 1
+                    and isinstance(w.test.ops[0], (ast.Lt, ast.LtE))):
+                continue
+            l_, r_ = lin(w.test.left), lin(w.test.comparators[0])
+            if l_ is None or r_ is None:
+                continue
+            d = l_ - r_
+            idx = [k for k, v in d.terms.items() if v == 1 and not k.startswith('len(')]
+            lens = [k for k, v in d.terms.items() if v == -1 and k.startswith('len(')]
+            if len(idx) != 1 or len(lens) != 1 or len(d.terms) != 2:
+                continue
+            i_, seq = idx[0], lens[0][4:-1]
+            c = d.const if isinstance(w.test.ops[0], ast.Lt) else d.const - 1
+            ks = []
+            for x in ast.walk(w):
+                if isinstance(x, ast.Subscript) and norm(x.value) == seq and isinstance(x.ctx, ast.Load) \
+                        and not isinstance(x.slice, ast.Slice):
+                    li = lin(x.slice)
+                    if li is None or li.terms != {i_: 1}:
+                        continue
+                    own = {t for _e, t, _p in literals([(w.test, True)])}
+                    guarded = any(i_ in t and 'len(' in t and t not in own for _e, t, _p in facts_at(x))
+                    if not guarded:
+                        ks.append(li.const)
+            if not ks:
+                continue
+            n += 1
+            k = max(ks)
+            construct = f"{fi.qualname}: `while {norm(w.test)}` visits every position it reads ({seq}[{i_}..{i_}+{k}])"
+            ctx.check(c == k, 'CONSUME', construct, f"bound offset {c} == largest unguarded read offset {k}",
+                      (f"the loop runs while {i_} + {c} < len({seq}) but reads up to {seq}[{i_} + {k}]: "
+                       + ("the last read is past the end (IndexError)" if c < k else
+                          f"it stops {c - k} position(s) early, so the last component(s) of the chain are never examined")),
+                      key=f"CONSUME|{fi.qualname}|bound|{c}-{k}", where=common.loc(fi, w))
+    if n == 0:
+        ctx.undecided('CONSUME', 'index loops of aliquot_parse visit every position they read', 'no `while i + c < len(x)` loop recognised')
 
 
 def _subdivide(ctx):
